@@ -4,7 +4,7 @@ From Coq Require Import ZArith List Bool Lia.
 From HV Require Import Base.ZRange Grid.Window Grid.WindowProofs.
 From HVgen Require Import Blocks.
 Import ListNotations.
-Open Scope Z_scope.
+Local Open Scope Z_scope.
 
 Lemma blocks_translated : Blocks.translation_failed = false.
 Proof. reflexivity. Qed.
@@ -71,3 +71,19 @@ Theorem blocks_tied off n bs ov u :
   (gen_rows_outer_bands_outermost = true /\ gen_window_corners_ok = true /\ gen_windows_from_corners_ok = true /\ gen_outer_ok = true /\
    gen_fuse_passes_overlap = true /\ gen_compare_no_overlap = true).
 Proof. split; [exact blocks_translated|]. split; [apply tie_uls|]. split; [apply tie_ablk|apply tie_structure]. Qed.
+
+(* utils.same_orientation_crs and the origin of the corrected profile (Grid.ProcGrid) *)
+From HV Require Import Grid.ProcGrid.
+Lemma tie_vrt snu rnu same psrc :
+  gen_vrt_src_flip snu rnu same psrc = vrt_src_flip snu rnu same psrc /\ gen_vrt_ref_flip snu rnu same psrc = vrt_ref_flip snu rnu same psrc /\
+  gen_vrt_src_to_ref_crs snu rnu same psrc = vrt_src_to_ref_crs snu rnu same psrc /\
+  gen_vrt_ref_to_src_crs snu rnu same psrc = vrt_ref_to_src_crs snu rnu same psrc /\ gen_corr_profile_from_source_view = true.
+Proof. destruct snu, rnu, same, psrc; repeat split; reflexivity. Qed.
+
+(* band matching constants of matched_pair.py as exact binary64 values, and the shape of the tolerance test (Bands.Match) *)
+From HV Require Import Bands.Match.
+Lemma tie_band_constants :
+  gen_max_rel_wavelength_diff = Match.tol /\ std_cw CRed = Some gen_std_cw_red /\ std_cw CGreen = Some gen_std_cw_green /\
+  std_cw CBlue = Some gen_std_cw_blue /\ gen_rgb_defaults_only_for_three_bands = true /\ gen_over_tolerance_is_strict_any = true /\
+  gen_rel_dist_by_source = true.
+Proof. repeat split; reflexivity. Qed.
